@@ -359,10 +359,103 @@ def has_surrogate(s):
     return any(0xD800 <= ord(c) < 0xE000 for c in s)
 
 
+def probe_registration(ctx):
+    """histories of StateTypesRegistry.register on a FRESH registry object: a type registered again with another state type object
+    (same or other identifier). Correspondence: the object found under every key vs Liquer.StateTypes.registerAll (`st.reg`).
+    Oracle: after every history, for every registered Python type a value encoded by the state type its qualified name selects,
+    in that state type's default format, is decoded by the state type the recorded identifier selects."""
+    import liquer.state_types as S
+    rng = ctx.rng
+
+    class T0:       # three Python types of this harness
+        def __init__(self, v=0):
+            self.v = v
+
+        def __eq__(self, o):
+            return type(o) is type(self) and o.v == self.v
+
+    class T1(T0):
+        pass
+
+    class T2(T0):
+        pass
+
+    def mk_state_type(name, ident, fmt):
+        class ST(S.StateType):
+            def identifier(self):
+                return ident
+
+            def default_extension(self):
+                return fmt
+
+            def default_filename(self):
+                return "data." + fmt
+
+            def default_mimetype(self):
+                return "application/octet-stream"
+
+            def is_type_of(self, data):
+                return isinstance(data, T0)
+
+            def as_bytes(self, data, extension=None):
+                return (fmt + ":" + type(data).__name__ + ":" + str(data.v)).encode(), "application/octet-stream"
+
+            def from_bytes(self, b, extension=None):
+                f, tn, v = b.decode().split(":")
+                if f != fmt:
+                    raise Exception("this state type reads %s, the bytes are %s" % (fmt, f))
+                return {"T0": T0, "T1": T1, "T2": T2}[tn](int(v))
+
+            def copy(self, data):
+                return type(data)(data.v)
+        o = ST()
+        o.verif_name = name
+        return o
+
+    objs = [mk_state_type("A", "grid", "fa"), mk_state_type("B", "grid", "fb"), mk_state_type("C", "other", "fc"), mk_state_type("D", "other", "fd")]
+    types = [T0, T1, T2]
+    cases, impl, reqs = [], [], []
+    for trial in range(400 if ctx.tier == "thorough" else 60):
+        reg = S.StateTypesRegistry()
+        base = set(reg.state_types_dictionary)
+        hist = [(rng.choice(types), rng.choice(objs)) for _ in range(rng.randint(1, 6))]
+        for t, o in hist:
+            reg.register(t, o)
+        keys = sorted(k for k in reg.state_types_dictionary if k not in base)
+        quals = {t: S.get_type_qualname(t) for t in types}
+        probe = sorted(set(quals.values()) | {"grid", "other"})
+        cases.append("register history %r" % [(t.__name__, o.verif_name) for t, o in hist])
+        impl.append(",".join((hx(getattr(reg.state_types_dictionary.get(k), "verif_name", "")) if k in reg.state_types_dictionary and k not in base else "~") for k in probe))
+        reqs.append("st.reg %s %s" % (",".join("%s.%s.%s" % (hx(quals[t]), hx(o.verif_name), hx(o.identifier())) for t, o in hist), ",".join(hx(k) for k in probe)))
+        ctx.case("reg:%r" % [(t.__name__, o.verif_name) for t, o in hist] if len({t for t, _ in hist}) < len(hist) else None)
+        ctx.count("registration histories", "length %d" % len(hist))
+        # oracle: the last registration of every type round-trips through the recorded identifier
+        last = {}
+        for t, o in hist:
+            last[t] = o
+        t, o = hist[-1]
+        x = t(7)
+        st = reg.get(S.get_type_qualname(type(x)))
+        b, _ = st.as_bytes(x)
+        try:
+            y = reg.get(st.identifier()).from_bytes(b)
+            ok = y == x and type(y) is type(x)
+            why = "decodes to %r" % (getattr(y, "v", y),)
+        except Exception as ex:
+            ok, why = False, "the decoder selected by the recorded identifier raises: %s" % ex
+        if not ok:
+            ctx.violation("registration:%s" % ",".join("%s=%s" % (t_.__name__, o_.verif_name) for t_, o_ in hist[-2:]),
+                          "fresh StateTypesRegistry, register history %r: a %s value encoded by the state type its type selects (%s, identifier %r, format %s) is not read back through the recorded identifier: %s" % (
+                              [(t_.__name__, o_.verif_name) for t_, o_ in hist], t.__name__, st.verif_name, st.identifier(), st.default_extension(), why),
+                          dict(kind="registration", history=[(t_.__name__, o_.verif_name) for t_, o_ in hist]))
+    ctx.compare("registration histories: object under every key vs registerAll (st.reg)", cases, impl, ctx.driver.ask(reqs))
+
+
 def run(ctx):
     import liquer.state_types as S
     import liquer.constants as K
     rng = ctx.rng
+    probe_registration(ctx)
     sv = gen_statetypes.survey()
     reg = S.state_types_registry()
     rows = {r["ident"]: r for r in sv["rows"]}
@@ -586,4 +679,10 @@ def replay(ctx, case):
                 both = [e for e, _ in r["writes"] if e in r["reads"]]
                 return None if r["default"] in both else "default extension %r not in writes∩reads" % r["default"]
         return None
+    if case["kind"] == "registration":
+        c2 = type(ctx)("C11", ctx.tier, ctx.seed)
+        c2.driver.available = False
+        probe_registration(c2)
+        hit = [v["what"] for v in c2.violations]
+        return hit[0] if hit else None
     return "unknown replay kind"
